@@ -1989,3 +1989,87 @@ def chain_link_markers_agree(ctx, p):
     ctx.ob(p + 'w written-markers-are-followed', 'K9-agreement', 'table::Entry', 'every marker an Entry method writes is one the link followers test for (accepting or rejecting)',
            bool(written) and written <= known, 'written {%s} recognised {%s}' % (sorted(m.encode('latin-1').hex() for m in written), sorted(m.encode('latin-1').hex() for m in known)))
     ctx.info[p + ' link families'] = [[(b.path, sorted(m.encode('latin-1').hex() for m in ms)) for b, s, ms in f] for f in fams]
+
+
+def page_search_hands_out_only_compared_entries(ctx, p):
+    """F67: the vectorised page search reads the candidate slot a second time from a page that may be a live mapping; the entry it
+    hands out must be re-checked against the compare target (decided by the C19 rules on the provenance terms of the routine: the
+    obligation is taken over from there, so that the properties whose reads go through the page search report it as well)."""
+    from props import C19
+    class Sub:
+        def __init__(self, ctx):
+            self.F, self.info, self.obs, self.cfg, self.prop = ctx.F, {}, [], ctx.cfg, 'C19'
+        def ob(self, key, rule, fn, desc, ok, detail='', loc=None):
+            self.obs.append((key, rule, fn, desc, bool(ok), detail, loc))
+            return bool(ok)
+        def body(self, path):
+            return self.F.body(path)
+        def note(self, s):
+            pass
+    sub = Sub(ctx)
+    C19.run(sub)
+    hit = [o for o in sub.obs if o[0].startswith('5b ')]
+    if hit:
+        key, rule, fn, desc, ok, detail, loc = hit[0]
+        ctx.ob(p + ' page-search-hands-out-only-compared-entries', rule, fn, desc, ok, detail, loc)
+    else:
+        first_bad = [o for o in sub.obs if not o[4]]
+        ctx.ob(p + ' page-search-hands-out-only-compared-entries', 'K3-guard', '-', 'the page search re-checks the entry it reads again before handing it out',
+               False, 'the page-search analysis stopped before reaching the re-check: %s' % (first_bad[0][0] if first_bad else 'no vector routine found'))
+
+
+def walk_frees_children_of_the_root_found(ctx, p):
+    """F69 (C10, C14): the node walk of a tree removal starts from the child list of the root value that the planning step has
+    just read and is removing - not from a list stored in the change set when the transaction was submitted, which belongs to
+    another root as soon as an earlier operation of the same transaction (or an earlier commit) replaced the root."""
+    F = ctx.F
+    WALK = 'db::IndexedChangeSet::write_dereference_children_plan'
+    wpl = ctx.body('db::IndexedChangeSet::write_plan')
+    if not wpl:
+        return
+    walk = [(fb, s) for fb, s in lib.fam_sites(F, wpl.path, [WALK]) if fb.path != WALK]
+    ctx.ob(p + '0 removal-walk-anchor', 'anchor', wpl.path, 'the planning of a change set starts the node walk of a tree removal somewhere', len(walk) >= 1, str([(b.path, s) for b, s in walk]))
+    for fb, s in walk:
+        t = fb.term(s)
+        cands = [a for a in t['a'] if op_place(a) is not None and re.search(r'Vec<u64>|\[u64\]|Children', str(fb.locals[op_place(a)[0]]))]
+        ok, det = False, 'no child-list argument found'
+        if cands:
+            sl = backward_slice(fb, [op_place(cands[0])])
+            from_root = any(re.search(r'unpack_node_data$', c) for c in sl.calls) and any(re.search(r'HashColumn::get$', c) for c in sl.calls)
+            stored = [f for f in sl.fields if re.search(r'DereferenceChildren\.NodeChange\.2$|NodeChange\.2$', f)]
+            # the payload of the change may be looked at for the key / hash (fields 0, 1), not for the children
+            ok = from_root and not stored
+            det = '' if ok else ('the walk is handed the child list stored in the change set (%s)' % stored[0] if stored else 'the child list does not come from unpacking the root value returned by HashColumn::get')
+        ctx.ob(p + ' walk-starts-from-the-root-found %s' % fb.path, 'K4-provenance', fb.path,
+               'the children handed to the removal walk are unpacked from the root value that this planning step read (and removes)', ok, det, fb.loc(s))
+
+
+def borrow(ctx, modname, key_start, new_key):
+    """take over one obligation decided by another property's module (run on the same facts), under a key of this property"""
+    import importlib
+    mod = importlib.import_module('props.' + modname)
+    class Sub:
+        def __init__(self, ctx):
+            self.F, self.info, self.obs, self.cfg, self.prop, self.tier = ctx.F, {}, [], ctx.cfg, modname, getattr(ctx, 'tier', 'quick')
+            self._ctx = ctx
+        def ob(self, key, rule, fn, desc, ok, detail='', loc=None):
+            self.obs.append((key, rule, fn, desc, bool(ok), detail, loc))
+            return bool(ok)
+        def body(self, path):
+            return self.F.body(path)
+        def note(self, s):
+            pass
+        def use(self, c):
+            pass
+    cache = ctx.__dict__.setdefault('_borrow_cache', {})
+    k = (modname, ctx.cfg)
+    if k not in cache:
+        sub = Sub(ctx)
+        mod.run(sub)
+        cache[k] = sub.obs
+    hit = [o for o in cache[k] if o[0].startswith(key_start)]
+    if not hit:
+        ctx.ob(new_key, 'anchor', '-', 'obligation %s of %s exists' % (key_start, modname), False, 'not produced on this tree')
+        return
+    for key, rule, fn, desc, ok, detail, loc in hit[:1]:
+        ctx.ob(new_key, rule, fn, desc, ok, detail, loc)
